@@ -2,6 +2,7 @@ import Pandora.Drv.Util
 import Pandora.Spec.C06
 import Pandora.Model.C06CliShutdown
 import Pandora.Model.C06SinkFail
+import Pandora.Model.C06Engine
 
 /-!
 Line-protocol driver of C06. Input kinds (see harness/cmd/c06):
@@ -146,14 +147,27 @@ def handleQueue (kv : List (String × String)) (impl : String) : String × Strin
 
 /-! ### the real engine -/
 
+open Pandora.Model.C06Engine in
+/-- the engine model on the schedule "every pool: one instance reports and finishes, the await loop takes the four
+results, `pool.Run` sees the closed `awaitErr`, its result is received; then the loop is over":
+(did `Engine.Run` return nil, had every aggregator returned by then) -/
+def modelEngineRet (pools : Nat) : Bool × Bool :=
+  let pool : Nat → List EEv := fun j =>
+    ([.launch, .startDone, .report 0, .finish, .awaitStart, .awaitInst, .aggReturn, .awaitAgg, .provReturn,
+      .awaitProv, .waitDone] : List Pandora.Model.C06Pool.PEv).map (EEv.pool j) ++ [.poolRetClosed j, .poolSend j, .engRecv]
+  let st := run (init pools pools 4) ((List.range pools).flatMap pool ++ [.engRetNil])
+  (st.ret == some true, (List.range pools).all fun j => (st.pools j).p.aggDone)
+
 open Pandora.Model.AggQueue in
-/-- a run that ends by itself, nothing dropped: the queue model on the schedule "report, receive, …, cancel, drain" -/
-def modelEngineNatural (kind : Kind) (n q : Nat) : String :=
+/-- a run that ends by itself, nothing dropped: the queue model on the schedule "report, receive, …, cancel, drain";
+`run=` and `aggret=` from the engine model -/
+def modelEngineNatural (kind : Kind) (n q pools : Nat) : String :=
   let progs : Nat → List Nat := fun r => if r = 0 then List.range n else []
   let st := run { kind := kind, cap := q } (init progs) (witnessSchedule 1 n q n 0)
   let err := match st.err with | none => "nil" | some d => s!"dropped:{d}"
   let ret := st.phase == .returned
-  s!"run=nil reports={st.log.length} pre={st.log.length} lines={st.out.length} dropped={st.droppedCount} err={err} order=1 dup=0 bad=0 closed={if st.closed && ret && st.buf.isEmpty then 1 else 0} miss=0 aggret={if ret then 1 else 0}"
+  let e := modelEngineRet pools
+  s!"run={if e.1 then "nil" else "running"} reports={st.log.length} pre={st.log.length} lines={st.out.length} dropped={st.droppedCount} err={err} order=1 dup=0 bad=0 closed={if st.closed && ret && st.buf.isEmpty then 1 else 0} miss=0 aggret={if ret && e.2 then 1 else 0}"
 
 def handleEngine (kv : List (String × String)) (impl : String) : String × String :=
   let ikv := parseKV impl
@@ -173,7 +187,7 @@ def handleEngine (kv : List (String × String)) (impl : String) : String × Stri
       -- "discarded" samples (one per ammo that was not shot) must all be in the output, next to the guns' reports
       let discTok := lookup ikv "disc"
       let overdue := (lookup kv "disc").isSome
-      let m := if !cancelled && dropped == 0 && !overdue then modelEngineNatural kind n (max q n) else "-"
+      let m := if !cancelled && dropped == 0 && !overdue then modelEngineNatural kind n (max q n) pools else "-"
       let v := judgeEngine kind (getS ikv "run") (getS ikv "aggret" == "1") cancelled pools o
       let v := if v == "ok" && discTok.isSome && !cancelled && getS ikv "run" == "nil" &&
                   getN? ikv "disc" != getN? ikv "wantdisc" then
